@@ -67,10 +67,29 @@ def symptom_of(bad):
         return "trace:" + _digest(bad)
     if k == "status":
         return "status:" + str(bad["got_status"]).split(":")[0] + "!=" + str(bad["ref_status"]).split(":")[0]
+    if k == "monitor:tag" and bad.get("events"):
+        e = bad["events"][0]
+        return f"monitor:tag:line{e[1]}:{e[2]}"
     if k.startswith("monitor:region-cross") and bad.get("events"):
         e = bad["events"][0]
         return "monitor:" + region_symptom(e)
     return k
+
+
+def pragma_header(options):
+    tags = []
+    for k in comp.OPTION_NAMES:
+        nm = k.replace("_", "-")
+        tags.append(nm if options[k] else "no-" + nm)
+    # two directive lines, to exercise multi-line directives as well
+    return "# pytrapic: " + ", ".join(tags[:4]) + "\n# pytrapic: " + ", ".join(tags[4:]) + "\n"
+
+
+def normalize(text):
+    """Comment-stripped, whitespace-normalised instruction text (line structure kept)."""
+    from .ic10 import tokenize
+
+    return "\n".join(" ".join(tokenize(l)[0]) for l in text.split("\n"))
 
 
 def compile_variants(case):
@@ -84,15 +103,25 @@ def compile_variants(case):
     order = []
     errors = {}
     for o in case["variants"]:
-        options = comp.opts(**o)
+        o = dict(o)
         name = json.dumps(o, sort_keys=True)
-        res, meta = comp.compile_with_meta(dict(full) if full is not None else src, options)
+        pragma = o.pop("_pragma", False)
+        options = comp.opts(**o)
+        msrc = src
+        api_options = options
+        if pragma:
+            # the same vector given through '# pytrapic:' lines instead of the API
+            msrc = pragma_header(options) + src
+            api_options = comp.opts()
+            api_options["append_version"] = True
+        inp = dict(full, **{"": msrc}) if full is not None else msrc
+        res, meta = comp.compile_with_meta(inp, api_options)
         if "code" not in res:
             errors[name] = res
             continue
         if meta is not None:
             meta["sp_law"] = sp_law_factory(meta, options)
-        key = res["code"]
+        key = normalize(res["code"])
         if key not in groups:
             groups[key] = [[name], res["code"], meta, options, res]
             order.append(key)
@@ -154,11 +183,28 @@ def run_case(case):
         name, r = next(iter(errors.items()))
         st["rejected"] = 1
         st["reject_reason"] = err_symptom(r)
+        if case.get("reject_must_match") and (not re.search(case["reject_must_match"], r["error"].get("description", "")) or "stack_trace" in r["error"]):
+            out["symptom"] = "reject-reason:" + err_symptom(r)
+            out["detail"] = {"variant": name, "description": r["error"].get("description", "")[:400]}
+            return out
         if case.get("reject_is_violation"):
             out["symptom"] = "compile-error:" + err_symptom(r)
             out["detail"] = {"variant": name, "description": r["error"].get("description", "")[:400]}
         return out
     st["rejected_variants"] = len(errors)
+    if errors and case.get("reject_must_match"):
+        for name, r in errors.items():
+            if not re.search(case["reject_must_match"], r["error"].get("description", "")) or "stack_trace" in r["error"]:
+                out["symptom"] = "reject-reason:" + err_symptom(r)
+                out["detail"] = {"variant": name, "description": r["error"].get("description", "")[:400]}
+                return out
+    if "regs" in case.get("static", ()):
+        for names, text, meta, options, res in groups:
+            for tok in re.findall(r"(?<![\w.$\"])r(\d+)(?![\w.\"])", normalize(text)):
+                if int(tok) > 15:
+                    out["symptom"] = "static:register-r%s" % tok
+                    out["detail"] = {"variant": names[0], "code": text}
+                    return out
     st["codes"] = len(groups)
     monitors = case.get("monitors", ["tags", "calls", "region", "spbal"])
     variants = []
